@@ -36,6 +36,7 @@ FLT = T("Flt")  # float (uninterpreted)
 DT = T("DT")  # datetime.datetime (uninterpreted)
 BYTES = T("bytes")
 CLS = T("cls")  # a class object of the package (its id in the class table)
+JREP = T("jrep")  # value-level PROV-JSON representation: a plain JSON scalar or an object {"$", "type"?, "lang"?}
 PYOBJ = T("pyobj")  # python-level constant (function, class, module, ...)
 EXC = T("exc")
 
@@ -150,6 +151,12 @@ class Sorts:
             return "(Array %s %s)" % (self.sort(kk), self.sort(Opt(vv)))
         if k == "tarray":
             return "(Array %s %s)" % (self.sort(t.args[0]), self.sort(t.args[1]))
+        if k == "jrep":
+            if "JRep" not in self.known:
+                self.known.add("JRep")
+                self.sort(Opt(STR))
+                self.decls.append("(declare-datatypes ((JRep 0)) (((JPlain (jplain Val)) (JObj (jdollar Val) (jtype Opt_Str) (jlang Opt_Str)))))")
+            return "JRep"
         if k == "vset":
             return "VSet"
         if k == "oset":
